@@ -10,7 +10,7 @@
 From Coq Require Import String List Arith Bool Permutation.
 From Falco Require Import Base.Res Base.SMBase Model.SM.
 From Falco Require Import Gen.SchedShape Proofs.SchedProofs Proofs.SchedSerial Proofs.SchedPlugins Proofs.SchedCollect
-  Proofs.SchedRequests Proofs.SchedShapeFacts.
+  Proofs.SchedRequests Proofs.SchedTwo Proofs.SchedShapeFacts.
 From Falco Require Import Model.Sched.
 Import ListNotations.
 
@@ -41,6 +41,18 @@ Theorem C18_requests_serialisable :
              length rs = length reqs /\
              forall k i, nth_error (acq c) k = Some i -> resp c i = nth_error rs k.
 Proof. exact requests_serialisable. Qed.
+
+(* two simulators in one process (the conc2 batches): nothing modelled is shared - the translator finds no
+   package-level variable written by the request path, ast.idCounter is atomic - so a joint interleaving is one
+   interleaving per simulator and each ends as run_history of ITS requests in ITS lock-acquisition order *)
+Theorem C18_two_simulators_serialisable :
+  forall (reqs1 reqs2 : list (oracle * request)) (p1 p2 : persistent) sched c1 c2,
+  exec2 persistent report sched (init (map handler (map request_body reqs1)) p1,
+                                 init (map handler (map request_body reqs2)) p2) = Some (c1, c2) ->
+  finished (length reqs1) c1 -> finished (length reqs2) c2 ->
+  (exists rs, run_history (map (fun i => nth i reqs1 req0) (acq c1)) p1 = OK (rs, st c1) /\ length rs = length reqs1) /\
+  (exists rs, run_history (map (fun i => nth i reqs2 req0) (acq c2)) p2 = OK (rs, st c2) /\ length rs = length reqs2).
+Proof. exact two_simulators_serialisable. Qed.
 
 (* the same against the functional one-at-a-time reference (what the differential run computes) *)
 Theorem C18_locked_serialisable_ref :
@@ -109,6 +121,7 @@ Proof. exact shape_facts. Qed.
 
 Print Assumptions C18_locked_serialisable.
 Print Assumptions C18_requests_serialisable.
+Print Assumptions C18_two_simulators_serialisable.
 Print Assumptions C18_locked_serialisable_ref.
 Print Assumptions C18_plugins_collected_in_order.
 Print Assumptions C18_append_locked_complete.
